@@ -129,6 +129,10 @@ func checkC20(c *Ctx) {
 		}
 	}
 	c20Determinism(c, det)
+	// "the same read gives the same result": the one place where map order could reach a result — the DHCPv4 key order used
+	// by ToBytes, String and Summary — is a total order (shared C07-K1/K2: every key collected, ascending sort, 82 and 255 last)
+	c07MapRanges(c)
+	c07SortedKeys(c)
 	r.Extra["e3_contexts"] = len(e.summ)
 	r.Extra["e3_rounds"] = e.rounds
 	r.Assume("uio.Lexer behaves as the ADT table in checker/models.go")
